@@ -74,6 +74,7 @@ def check_spec(name, sp, fns, consts, timeout_ms, cfg="fe64"):
     I.generic = sp.get("generic", {})
     R = Recorder(I)
     R.cfg = cfg
+    CURRENT["cfg"] = cfg
     try:
         sp["fn"](I, R)
     except Unsupported as e:
@@ -147,6 +148,7 @@ def confirm(sp, fns, consts, model, o, only=None):
     I = Interp(fns, consts, AtomTable(), env=dict(model))
     I.generic = sp.get("generic", {})
     R = Recorder(I)
+    R.cfg = CURRENT.get("cfg", "fe64")
     try:
         sp["fn"](I, R)
     except Panic as e:
@@ -179,6 +181,7 @@ def confirm(sp, fns, consts, model, o, only=None):
 NATIVE = dict(base=None, features=[])
 CROSS = dict(n=0)
 SELFTEST = {}
+CURRENT = {}
 
 
 def bv_native_confirm(R, model):
